@@ -44,19 +44,20 @@ type StreamSpec struct {
 	PtsOff []int32 `json:"ptsOff"` // cyclic pattern of pts offsets for video units (in track ticks)
 	Frags  int     `json:"frags"`  // fMP4: split each segment into this many fragments
 	// addressing
-	ByteRange bool   `json:"byteRange"` // all segments in one file, addressed by EXT-X-BYTERANGE
-	NoStart   bool   `json:"noStart"`   // first byte range without @start
-	Query     string `json:"query"`
-	AbsURL    bool   `json:"absUrl"`
-	DateTime  bool   `json:"dateTime"` // EXT-X-PROGRAM-DATE-TIME on every segment
-	DTJump    int64  `json:"dtJump"`   // extra ms added to the date-time of each later segment (re-anchoring)
-	Name      string `json:"name"`
-	Lang      string `json:"lang"`
-	Default   bool   `json:"default"`
-	SegDurMs  int    `json:"segDurMs"`
-	UriStyle  string `json:"uriStyle"` // with Scenario.Dirs: rel ("../media/x") | abspath ("/live/media/x") | absurl | sub ("m/x")
-	LL        bool   `json:"ll"`       // Low-Latency: SERVER-CONTROL CAN-BLOCK-RELOAD + parts + preload hint
-	CanSkip   bool   `json:"canSkip"`  // CAN-SKIP-UNTIL advertised
+	ByteRange  bool   `json:"byteRange"` // all segments in one file, addressed by EXT-X-BYTERANGE
+	NoStart    bool   `json:"noStart"`   // first byte range without @start
+	Query      string `json:"query"`
+	AbsURL     bool   `json:"absUrl"`
+	DateTime   bool   `json:"dateTime"` // EXT-X-PROGRAM-DATE-TIME on every segment
+	DTJump     int64  `json:"dtJump"`   // extra ms added to the date-time of each later segment (re-anchoring)
+	Name       string `json:"name"`
+	Lang       string `json:"lang"`
+	Default    bool   `json:"default"`
+	SegDurMs   int    `json:"segDurMs"`
+	HintRanges bool   `json:"hintRanges"` // Low-Latency: parts are byte ranges of one file (the preload hint carries BYTERANGE-START / -LENGTH)
+	UriStyle   string `json:"uriStyle"`   // with Scenario.Dirs: rel ("../media/x") | abspath ("/live/media/x") | absurl | sub ("m/x")
+	LL         bool   `json:"ll"`         // Low-Latency: SERVER-CONTROL CAN-BLOCK-RELOAD + parts + preload hint
+	CanSkip    bool   `json:"canSkip"`    // CAN-SKIP-UNTIL advertised
 }
 
 // Fault is a fault injected at a global request index.
@@ -107,6 +108,10 @@ type streamState struct {
 	init   []byte
 	ranges map[int][2]int // msn -> offset, length in the single file
 	file   []byte
+	// Low-Latency parts as byte ranges of one file
+	pranges map[int][2]int
+	pfile   []byte
+	pfirst  int
 }
 
 func (st *streamState) unitsOf(msn int) map[int][]Unit {
@@ -172,6 +177,26 @@ func (st *streamState) part(p int) ([]byte, error) {
 		units[ti] = []Unit{{ID: p, DTS: st.spec.Base[ti] + n*st.spec.Step[ti], Dur: st.spec.Step[ti], RA: true}}
 	}
 	return FragFMP4(p, st.spec.Tracks, st.ids(), units)
+}
+
+// ensurePartRange lays the parts out in one file, from the first hinted part on
+func (st *streamState) ensurePartRange(p int) error {
+	if st.pranges == nil {
+		st.pranges = map[int][2]int{}
+		st.pfirst = p
+	}
+	for q := st.pfirst; q <= p; q++ {
+		if _, ok := st.pranges[q]; ok {
+			continue
+		}
+		b, err := st.part(q)
+		if err != nil {
+			return err
+		}
+		st.pranges[q] = [2]int{len(st.pfile), len(b)}
+		st.pfile = append(st.pfile, b...)
+	}
+	return nil
 }
 
 func (st *streamState) ids() []int {
@@ -274,11 +299,26 @@ func (st *streamState) playlist(j int, v PLVersion, base string) (string, error)
 		}
 	}
 	if st.spec.LL && v.Hint > 0 {
+		if st.spec.HintRanges {
+			if err := st.ensurePartRange(v.Hint); err != nil {
+				return "", err
+			}
+		}
 		for p := (v.MS+v.N)*PPS + 1; p < v.Hint; p++ {
+			if rg, ok := st.pranges[p]; ok && st.spec.HintRanges {
+				fmt.Fprintf(&sb, "#EXT-X-PART:DURATION=%.5f,URI=\"%ss%d_parts.bin%s\",BYTERANGE=\"%d@%d\",INDEPENDENT=YES\n",
+					float64(st.segDurMs())/float64(PPS)/1000, pre, j, q, rg[1], rg[0])
+				continue
+			}
 			fmt.Fprintf(&sb, "#EXT-X-PART:DURATION=%.5f,URI=\"%ss%d_part%d.mp4%s\",INDEPENDENT=YES\n",
 				float64(st.segDurMs())/float64(PPS)/1000, pre, j, p, q)
 		}
-		fmt.Fprintf(&sb, "#EXT-X-PRELOAD-HINT:TYPE=PART,URI=\"%ss%d_part%d.mp4%s\"\n", pre, j, v.Hint, q)
+		if st.spec.HintRanges {
+			rg := st.pranges[v.Hint]
+			fmt.Fprintf(&sb, "#EXT-X-PRELOAD-HINT:TYPE=PART,URI=\"%ss%d_parts.bin%s\",BYTERANGE-START=%d,BYTERANGE-LENGTH=%d\n", pre, j, q, rg[0], rg[1])
+		} else {
+			fmt.Fprintf(&sb, "#EXT-X-PRELOAD-HINT:TYPE=PART,URI=\"%ss%d_part%d.mp4%s\"\n", pre, j, v.Hint, q)
+		}
 	}
 	if v.End {
 		sb.WriteString("#EXT-X-ENDLIST\n")
@@ -315,6 +355,7 @@ var rePl = regexp.MustCompile(`^/s(\d+)\.m3u8$`)
 var reInit = regexp.MustCompile(`^/s(\d+)_init\.mp4$`)
 var rePart = regexp.MustCompile(`^/s(\d+)_part(\d+)\.mp4$`)
 var reAll = regexp.MustCompile(`^/s(\d+)_all\.bin$`)
+var reParts = regexp.MustCompile(`^/s(\d+)_parts\.bin$`)
 
 type runner struct {
 	sc      Scenario
@@ -434,6 +475,26 @@ func (r *runner) handle(i int, req *http.Request) (Resp, string, map[string]inte
 		}
 		resp.Body = b
 		info["s"], info["id"] = j, pn
+	case reParts.MatchString(path):
+		j, _ := strconv.Atoi(reParts.FindStringSubmatch(path)[1])
+		st := r.streams[j]
+		info["s"] = j
+		kind = "range"
+		var a, z int
+		if _, err := fmt.Sscanf(req.Header.Get("Range"), "bytes=%d-%d", &a, &z); err != nil || a < 0 || z >= len(st.pfile) || a > z {
+			resp.Body = st.pfile
+			info["id"] = -1
+		} else {
+			resp.Body = st.pfile[a : z+1]
+			resp.Status = 206
+			info["id"] = -2
+			for pn, rr := range st.pranges {
+				if rr[0] == a && rr[1] == z-a+1 {
+					info["id"] = pn
+					kind = "part"
+				}
+			}
+		}
 	case reAll.MatchString(path):
 		j, _ := strconv.Atoi(reAll.FindStringSubmatch(path)[1])
 		st := r.streams[j]
